@@ -189,9 +189,32 @@ func (vclock) NowMonotonic() int64   { return int64(vtime.Elapsed()) }
 // Inject delivers a network-layer packet to node n's NIC synchronously and waits for quiescence.
 func (w *World) Inject(n *Node, nic tcpip.NICID, proto tcpip.NetworkProtocolNumber, data []byte, srcMAC, dstMAC tcpip.LinkAddress) {
 	p := n.Ports[nic]
-	v := buffer.NewViewFromBytes(data)
-	p.disp.DeliverNetworkPacket(p, srcMAC, dstMAC, proto, v.ToVectorisedView())
+	p.disp.DeliverNetworkPacket(p, srcMAC, dstMAC, proto, chunked(data))
 	w.Settle()
+}
+
+// chunked splits a packet into views the way the repository's fd-based endpoint reads
+// frames (buffers of 128, 256, 256, 512, 1024, ... bytes), so large packets arrive as
+// multi-view vectorised views.
+func chunked(data []byte) buffer.VectorisedView {
+	sizes := []int{128, 256, 256, 512, 1024, 2048, 4096, 8192, 16384, 32768}
+	var views []buffer.View
+	rest := data
+	for _, sz := range sizes {
+		if len(rest) == 0 {
+			break
+		}
+		n := sz
+		if n > len(rest) {
+			n = len(rest)
+		}
+		views = append(views, buffer.NewViewFromBytes(rest[:n]))
+		rest = rest[n:]
+	}
+	if len(views) == 0 {
+		views = append(views, buffer.View{})
+	}
+	return buffer.NewVectorisedView(len(data), views)
 }
 
 // Deliver moves frame f to the other node (two-node worlds) or to `to`.
@@ -223,6 +246,10 @@ func (w *World) Settle() {
 // goroutinesQuiet parses the headers of a full goroutine dump.
 func goroutinesQuiet() (bool, string) {
 	n := runtime.Stack(stackBuf, true)
+	for n == len(stackBuf) { // truncated dump would hide the newest goroutines: grow and retry
+		stackBuf = make([]byte, 2*len(stackBuf))
+		n = runtime.Stack(stackBuf, true)
+	}
 	b := stackBuf[:n]
 	first := true
 	for len(b) > 0 {
@@ -266,6 +293,10 @@ var fdIdle func() bool
 // DeadlockedGoroutines lists goroutines waiting for a mutex while the world is quiescent.
 func DeadlockedGoroutines() []string {
 	n := runtime.Stack(stackBuf, true)
+	for n == len(stackBuf) {
+		stackBuf = make([]byte, 2*len(stackBuf))
+		n = runtime.Stack(stackBuf, true)
+	}
 	var out []string
 	for _, blk := range strings.Split(string(stackBuf[:n]), "\n\n") {
 		hdr := strings.SplitN(blk, "\n", 2)[0]
